@@ -18,7 +18,7 @@ class C14(Prop):
     id = "C14"
     rule = (
         "cases = the deterministic server-stack workflow with a delayed retry (retry delay D in {2,5,20}) and/or a final "
-        "wait_for_event(timeout=T in {4,15}) nobody answers in time (optionally preceded, in the same step, by a wait for a confirmation the harness gives once), served by the real WorkflowServer with a generated idle_timeout "
+        "wait_for_event(timeout=T in {0,4,15}; 0 = the non-blocking form, due at once) nobody answers in time (optionally preceded, in the same step, by a wait for a confirmation the harness gives once), served by the real WorkflowServer with a generated idle_timeout "
         "I in {1,3,6,10,30,never} (both sides of D and T), optionally a process stop + reboot over the same store at a generated virtual "
         "instant, and a late human reply at t=200 for waits without timeout (waits with a timeout get no reply at all). Oracle at the virtual horizon (>> D, T, I): the handler is "
         "terminal and 'completed'; every job was retried to completion; a wait whose timeout was due before the late reply ended with "
@@ -122,7 +122,7 @@ class C14(Prop):
                         genwf.CUR = genwf.Rec({"ties": case["ties"], "ext": []})
                         life = await srv.start_life(store, srv.det_factory(case, log), idle_timeout=idle, keep=harness)
                         cur["life"] = life
-                if case.get("wait") and not case.get("wait_timeout"):
+                if case.get("wait") and case.get("wait_timeout") is None:
                     # only a wait WITHOUT timeout needs a human to end it; a wait with a timeout must end by itself
                     await asyncio.sleep(max(0.0, LATE - VClock.t))
                     row = await srv.handler_row(store, "h1")
@@ -157,7 +157,7 @@ class C14(Prop):
                 pend.append((e["t_out"], e["t_out"] + D, "retry"))
         T = case.get("wait_timeout")
         asked = log.get("wait_at", [])  # the instant the (timed) wait was first registered
-        if case.get("wait") and T and asked:
+        if case.get("wait") and T is not None and asked:
             pend.append((asked[0], asked[0] + T, "waiter_timeout"))
 
         def pending_at(t):
@@ -190,7 +190,7 @@ class C14(Prop):
         )
         attrs = dict(timer_pending_at_release=bool(rel_pending), timer_pending_at_restart=bool(rst_pending), released=bool(obs["released"]), restarted=obs["restart"] is not None,
                      kinds=sorted(set(rel_pending) | set(rst_pending)), restart_with_step_in_flight=in_flight_at_restart, reload_on_reply_failed=reload_failed)
-        timeout_due_first = bool(case.get("wait") and T and asked and asked[0] + T < LATE - 1)
+        timeout_due_first = bool(case.get("wait") and T is not None and asked and asked[0] + T < LATE - 1)
         exp_reply = None
         if case.get("wait"):
             exp_reply = "timeout" if timeout_due_first else "k"
@@ -219,6 +219,8 @@ class C14(Prop):
             r.classes.append("restart_while_timer_pending")
         if pend:
             r.classes.append("has_timer")
+        if case.get("wait") and T == 0:
+            r.classes.append("zero_wait_timeout")
         if case.get("pre_wait") and obs.get("pre_sent") is not None:
             r.classes.append("two_sequential_waits")
             if (obs["restart"] is not None and obs["restart"] > obs["pre_sent"]) or any(t > obs["pre_sent"] for t in obs["released"]):
